@@ -1,4 +1,5 @@
 import LivesimVerif.Lemmas.Core
+import LivesimVerif.Model.Ttml
 /-!
 # C01 — Looped output is one gap-free, wall-clock-anchored media timeline
 
@@ -162,3 +163,61 @@ example : byTime exAsset exRep Cfg.default 900000 20000 = byNr exAsset exRep Cfg
   decide
 
 end Core
+
+/-! ## TTML clause: embedded timestamps move by the same offset as the decode time
+
+`Model/Ttml.lean` models `shiftStppTimes`' conversion of the decode-time shift to milliseconds, the scan for timestamps
+(`timeExp`, leftmost-first) and `shiftTimestamp`; ops `ttml` and `tshift` tie it to the code. -/
+namespace Ttml
+
+/-- **A rewritten timestamp denotes exactly the old instant plus the shift**: the four fields written for `x` ms
+(`%02d:%02d:%02d.%03d`) read back as `x`, for every `x` (hours of any size). -/
+theorem c01_ttml_fields_exact (x : Nat) : toMS (fields x) = x := by
+  unfold toMS fields
+  simp only
+  omega
+
+/-- … and they are a normal clock reading: minutes and seconds below 60, milliseconds below 1000. -/
+theorem c01_ttml_fields_normal (x : Nat) :
+    (fields x).2.1 < 60 ∧ (fields x).2.2.1 < 60 ∧ (fields x).2.2.2 < 1000 := by
+  unfold fields
+  simp only
+  omega
+
+/-- without `uint64` overflow (instants below 2⁶⁴ ms, i.e. 584 million years) the shifted value is the plain sum -/
+theorem c01_ttml_no_wrap (v d : Nat) (h : v + d < 18446744073709551616) : wrap (wrap v + d) = v + d := by
+  unfold wrap; omega
+
+/-- **The shift applied to the text equals the shift applied to the decode time.**  The decode time of loop `w` moves
+by `w · dur` ticks; for every asset that is admitted (`loopMS · T = 1000 · dur`) the millisecond shift computed by
+`shiftStppTimes` is exactly `w · loopMS`, the same instant, for every loop count and timescale. -/
+theorem c01_ttml_shift_is_decode_shift (w dur loopMS T : Nat) (hT : 0 < T) (hadm : loopMS * T = 1000 * dur) :
+    stppShiftMS (w * dur) T = w * loopMS := by
+  unfold stppShiftMS
+  have e : 2 * (w * dur) * 1000 = 2 * T * (w * loopMS) := by
+    have : w * (loopMS * T) = w * (1000 * dur) := by rw [hadm]
+    calc 2 * (w * dur) * 1000 = 2 * (w * (1000 * dur)) := by
+          rw [Nat.mul_assoc 2, Nat.mul_assoc w, Nat.mul_comm dur 1000]
+      _ = 2 * (w * (loopMS * T)) := by rw [this]
+      _ = 2 * T * (w * loopMS) := by
+          rw [Nat.mul_assoc 2 T, ← Nat.mul_assoc w loopMS T, Nat.mul_comm T (w * loopMS)]
+  rw [e, Nat.mul_add_div (by omega : 0 < 2 * T), Nat.div_eq_of_lt (by omega)]
+  omega
+
+/-- in general the shift is the decode-time shift rounded to the nearest millisecond -/
+theorem c01_ttml_shift_rounds (ts T : Nat) (hT : 0 < T) :
+    2 * T * stppShiftMS ts T ≤ 2 * ts * 1000 + T ∧ 2 * ts * 1000 + T < 2 * T * (stppShiftMS ts T + 1) := by
+  unfold stppShiftMS
+  have h1 := Nat.div_add_mod (2 * ts * 1000 + T) (2 * T)
+  have h2 := Nat.mod_lt (2 * ts * 1000 + T) (by omega : 0 < 2 * T)
+  constructor
+  · omega
+  · rw [Nat.mul_add]; omega
+
+/-- non-vacuity: a document with two timestamps (one without fraction) shifted by one 8.008 s loop; text outside the
+timestamps is untouched; a one-digit hour does not match (`1:02:03` → only `02:03:…` could, and does not) -/
+example : shiftTTML "<p begin=\"00:00:01.500\" end=\"00:00:59\">1:02:03</p>" 8008
+    = "<p begin=\"00:00:09.508\" end=\"00:01:07.008\">1:02:03</p>" := by decide
+example : stppShiftMS 8008 1000 = 8008 ∧ stppShiftMS (3 * 720720) 90000 = 3 * 8008 := by decide
+
+end Ttml
